@@ -6,12 +6,15 @@ Anchored code (param/parameterized.py unless said otherwise), all AS WRITTEN:
   * `Parameter.__set__`, the `allow_refs` branch: `syncing = name in obj.syncing`, `_resolve_ref`,
     `_update_ref` for a reference, the unlink branch guarded by `name in refs and not syncing`
     (drops the link and cancels the registered task), the early return for async references;
-  * `Parameters._resolve_ref` (schedules `_async_ref` through `async_executor`),
-    `Parameters._update_ref` (cancels the registered task, installs the link),
-    `Parameters._async_ref` (registers itself as the running task of the name *only if none is
-    registered*, otherwise cancels the registered one; awaits INSIDE `with _syncing((name,))` for a
-    coroutine, outside for an async generator; `finally` removes its own registration),
+  * `Parameters._resolve_ref` (installs the link with `_update_ref`, then schedules `_async_ref`
+    through `async_executor`), `Parameters._update_ref` (cancels the registered task, installs the link),
+    `Parameters._async_ref` (returns at once when `refs[name]` is no longer the reference it was
+    scheduled for; cancels a registered other task and registers itself; awaits the coroutine BEFORE
+    entering `with _syncing((name,))`; `finally` removes its own registration),
     `_syncing` (saves the whole set and puts the saved set back);
+    before commits 08165dc / 0c5ea5c (`Cfg.preFix`): the task was scheduled before the link was
+    installed, there was no such early return, a task registered itself *only if none was
+    registered*, and a coroutine was awaited INSIDE the `_syncing` scope;
   * `param/_utils.py async_executor` on a running loop: `asyncio.ensure_future` = `create_task`.
 
 asyncio facts the model reproduces (trusted, DESIGN.md section 3): one FIFO ready queue
@@ -27,8 +30,10 @@ A schedule is a list of `Event`s performed by a driver coroutine: assignments, `
 loop until the ready queue is empty) and completions of hand-made futures.  The k-th future of the
 t-th asynchronous assignment has the id `(t, k)`, so futures are never shared between assignments.
 
-`Cfg` selects between the code as it is in /repo now (`Cfg.current`) and the proposed repair
-(`Cfg.fixed`); each flag is one hunk of the patch.  Ghost field `last` (never read by a transition)
+`Cfg` selects between the code in /repo (`Cfg.repo`: since commits 08165dc and 0c5ea5c) and the
+code before those two fixes (`Cfg.preFix`, kept as a regression configuration: the witness schedules
+of the four defects found there); each flag is one hunk of the fixes, and the harness reads the
+flags from the source of `_async_ref` on every run.  Ghost field `last` (never read by a transition)
 records the most recent assignment per parameter.
 
 No Mathlib, no imports: loaded by the driver.
@@ -51,19 +56,21 @@ inductive Event
   | complete (t k : Nat) (v : Int)         -- `if not fut.done(): fut.set_result(v)`
   deriving Repr, DecidableEq
 
-/-- which variant of the anchored code is modelled; one flag per hunk of the proposed patch -/
+/-- which variant of the anchored code is modelled; one flag per hunk of the fixes 08165dc / 0c5ea5c -/
 structure Cfg where
-  /-- `_async_ref` awaits a coroutine inside `with _syncing(...)` (now) / before entering it (patch) -/
+  /-- `_async_ref` awaits a coroutine inside `with _syncing(...)` (before 08165dc) / before entering it (now) -/
   awaitInside : Bool
-  /-- (patch) `_resolve_ref` installs the link before scheduling and `_async_ref` returns at once
-      when `refs[name]` is no longer the reference it was scheduled for -/
+  /-- (since 0c5ea5c) `_resolve_ref` installs the link before scheduling and `_async_ref` returns at
+      once when `refs[name]` is no longer the reference it was scheduled for -/
   startCheck : Bool
-  /-- (patch) `_async_ref` registers itself also after cancelling a registered older task -/
+  /-- (since 0c5ea5c) `_async_ref` registers itself also after cancelling a registered older task -/
   registerAlways : Bool
   deriving Repr, DecidableEq
 
-def Cfg.current : Cfg := { awaitInside := true, startCheck := false, registerAlways := false }
-def Cfg.fixed : Cfg := { awaitInside := false, startCheck := true, registerAlways := true }
+/-- the code in /repo -/
+def Cfg.repo : Cfg := { awaitInside := false, startCheck := true, registerAlways := true }
+/-- the code before commits 08165dc and 0c5ea5c -/
+def Cfg.preFix : Cfg := { awaitInside := true, startCheck := false, registerAlways := false }
 
 inductive Fut
   | pending (waiter : Option Nat)          -- the task whose wake-up is the future's done-callback
@@ -76,7 +83,7 @@ inductive Pc
   | start                                  -- task created, first step not run yet
   | running                                -- inside a step (only while that step is being computed)
   | awaitCoro (saved : List Nat)           -- at `await awaitable` inside `with _syncing`; `saved` = the set to restore
-  | awaitOut                               -- (patch) at `value = await awaitable`, no scope entered
+  | awaitOut                               -- (now) at `value = await awaitable`, no scope entered
   | awaitGen (k : Nat)                     -- in `async for`, the generator awaits its k-th future
   | finished
   | cancelled
@@ -210,7 +217,7 @@ def genLoop (t p n : Nat) : Nat → St → St
     | (.value v, s1) => genLoop t p n r (scopedUpdate s1 p v)
 
 /-- the prologue of `_async_ref`: `running_task = async_refs.get(pname)`; register if `None`, else —
-unless it is this very task — cancel the registered one (and, patch, register all the same) -/
+unless it is this very task — cancel the registered one (and, since 0c5ea5c, register all the same) -/
 def registerTask (c : Cfg) (s0 : St) (t p : Nat) : St :=
   match s0.asyncRefs p with
   | none => { s0 with asyncRefs := upd s0.asyncRefs p (some t) }
@@ -225,7 +232,7 @@ def stepStart (c : Cfg) (s : St) (t : Nat) (x : Task) : St :=
     -- CancelledError is thrown into a coroutine that has not started: no line of it runs
     s.setTask t { x with pc := .cancelled, mustCancel := false }
   else if c.startCheck && s.refs x.param != some t then
-    -- (patch) the reference was replaced or removed before this task got to run
+    -- (now) the reference was replaced or removed before this task got to run
     s.setTask t { x with pc := .finished }
   else
     let p := x.param
@@ -241,7 +248,7 @@ def stepStart (c : Cfg) (s : St) (t : Nat) (x : Task) : St :=
         | (.raised, s3) => endTask (cleanup { s3 with syncing := saved } t p) t true
         | (.value v, s3) => endTask (cleanup { (plainSet s3 p v) with syncing := saved } t p) t false
       else
-        -- (patch) value = await awaitable; with _syncing(...): update
+        -- (now) value = await awaitable; with _syncing(...): update
         match awaitFut s1 t (t, 0) .awaitOut with
         | (.suspended, s3) => s3
         | (.raised, s3) => endTask (cleanup s3 t p) t true
@@ -307,7 +314,7 @@ def spawn (s : St) (p : Nat) (k : Kind) : St :=
            ready := s.ready ++ [(s.nTasks, none)] }
 
 /-- `obj.p = <coroutine function | async generator function>`: `_resolve_ref` schedules the task,
-then `_update_ref`; no value is stored and no event sent.  (patch: the link is installed first) -/
+then `_update_ref`; no value is stored and no event sent.  (since 0c5ea5c the link is installed first) -/
 def assignAsync (c : Cfg) (s : St) (p : Nat) (k : Kind) : St :=
   let t := s.nTasks
   let s1 := if c.startCheck then spawn (updateRef s p t) p k else updateRef (spawn s p k) p t
